@@ -15,8 +15,18 @@ grid vectors, make_grid_vectors, and the two DataPipes with their key options, o
 generated keypoint arrays (dtype float32 / float64 / int64, num_instances int / 0-d
 tensor, img_hw tuple / torch.Size / list, sigma float / int).
 Oracle: the property statement evaluated in float64 on the implementation's
-output (range, finiteness, shape, value formula, max over animals, zero channel
-for missing keypoints, maximum at the nearest grid cell).
+output (range, finiteness, shape, value formula, max over the animals OF THE SAME
+SAMPLE, zero channel for missing keypoints, maximum at the nearest grid cell).
+
+Finding F60 (cross-sample broadcast in make_multi_confmaps for n_samples >= 2): the
+oracle is per sample (the property), whatever the code or the model do.  A failing
+channel is filed under the known finding only if the selector `others_contribute`
+holds for it (an animal of ANOTHER sample has that node labelled among the
+contributing rows; Coq: Entry.others_contribute) AND the channel equals the maximum
+over the animals of all samples (the broadcast); anything else is a VIOLATION.  The
+model has both variants (Entry.mmc fx); which one /repo implements is detected by
+replaying corpus/C01/F60_cross_sample.json and must agree with the variant the
+translator reads from the source.
 """
 from __future__ import annotations
 
@@ -33,7 +43,7 @@ from pathlib import Path
 from .. import core
 
 PROP_FILES = [core.THEORIES / "C01" / "Props.v"]
-PREAMBLE = ("From SV Require Import C01.ConfMaps C01.Entry.\nFrom Coq Require Import List QArith.\n"
+PREAMBLE = ("From SV Require Import C01.ConfMaps C01.Entry.\nFrom Coq Require Import List QArith Bool.\n"
             "Import ListNotations.\nOpen Scope Q_scope.\n")
 RENDER = "rlist (rlist (rlist (rlist (ropt rQ))))"
 ATOL, RTOL = 2e-6, 3e-4           # float32 exp of a float32 argument
@@ -41,6 +51,9 @@ GEN_DIR = core.THEORIES / "Gen"
 
 GRID_KINDS = ("gen3", "gen4", "multi", "cent", "dp_single", "dp_other", "dp_multi", "dp_cent")
 MK_KINDS = ("mk", "mkmulti")
+MULTI_KINDS = ("multi", "dp_multi", "mkmulti", "cent", "dp_cent")
+SELECTOR = "others_contribute"
+F60_WITNESS = core.CORPUS / "C01" / "F60_cross_sample.json"
 
 
 # ---------------------------------------------------------------- tie 1: translator
@@ -61,7 +74,7 @@ def static_tie(run: core.Run):
     except Exception as e:                      # file / signature level: nothing can be said about any function
         run.obligation("translator confmaps2coq: the five function definitions are where and what they are "
                        "expected to be (fail-closed)", False, f"{type(e).__name__}: {e}")
-        return
+        return None
     run.obligation("translator confmaps2coq: the five function definitions are where and what they are "
                    "expected to be (fail-closed)", True)
     for py in tr.TARGETS:
@@ -73,7 +86,7 @@ def static_tie(run: core.Run):
         rc, out = coqc_in(d, "C01_ConfmapsIR.v")
         run.obligation("generated Gen/C01_ConfmapsIR.v compiles", rc == 0, out[-1200:])
         if rc != 0:
-            return
+            return res.get("multi_variant")
         for py, (fname, txt) in res["obligs"].items():
             (d / fname).write_text(txt)
 
@@ -90,7 +103,8 @@ def static_tie(run: core.Run):
                            f"model function (Gen/C01_Oblig_{py}.v)", rc == 0 and closed,
                            out[-1200:] if rc else ("" if closed else "not closed under the global context: " + out[-600:]))
         run.coverage["translator"] = {"sha1": res["sha1"], "functions": sorted(res["terms"]),
-                                      "unsupported": res["errors"]}
+                                      "unsupported": res["errors"],
+                                      "make_multi_confmaps_variant": res.get("multi_variant")}
         if not core._MUT:                       # copies for inspection (git-ignored)
             try:
                 GEN_DIR.mkdir(exist_ok=True)
@@ -100,6 +114,7 @@ def static_tie(run: core.Run):
                     os.replace(tmp, GEN_DIR / f.name)
             except OSError:
                 pass
+        return res.get("multi_variant")
     finally:
         shutil.rmtree(d, ignore_errors=True)
 
@@ -162,7 +177,7 @@ def gen_case(rng, thorough, stream=None):
     integer = dtype == "int"
     p_nan = 0 if integer else rng.choice([0, 0, 0.2, 0.5, 1.0])
     far = rng.random() < 0.1
-    n_samples = 1 if rng.random() < 0.8 else 2
+    n_samples = rng.choice([1, 1, 1, 1, 1, 1, 1, 2, 2, 3])       # 2-3 samples: per-sample reading, finding F60
     multi_like = kind in ("multi", "cent", "dp_cent", "dp_multi", "mkmulti")
     n_inst = rng.randint(0 if multi_like else 1, 4)
     n_nodes = rng.randint(1, 4)
@@ -321,10 +336,20 @@ def run_impl(c, mods):
 
 
 # ---------------------------------------------------------------- the property, executable
-def contributors(c):
-    """For every output channel: the list of keypoints whose bumps it must hold
-    (per the property statement, independent of the Coq model)."""
-    k, pts, num = c["kind"], c["pts"], c["num"]
+def contributing_rows(c, smp):
+    """The animals (rows) of ONE sample that contribute to its multi-instance / centroid map."""
+    k = c["kind"]
+    if k in ("multi", "cent", "dp_cent"):
+        return smp[:c["num"]]
+    return smp                                     # dp_multi (the pipe does not slice), mkmulti
+
+
+def contributors(c, all_samples=False):
+    """For every sample and output channel: the keypoints whose bumps the channel must hold, per the
+    property statement: the keypoints OF THAT SAMPLE (independent of the Coq model and of what the code
+    does with several samples).  all_samples=True gives instead the animals of every sample (the
+    broadcast of the pinned make_multi_confmaps); it is used only to classify a failure as finding F60."""
+    k, pts = c["kind"], c["pts"]
     per_sample = []
     if k in ("gen3", "dp_other", "mk"):
         for smp in pts:
@@ -332,20 +357,26 @@ def contributors(c):
     elif k in ("gen4", "dp_single"):
         for smp in pts:
             per_sample.append([[p] for inst in smp for p in inst])
-    elif k in ("multi", "dp_multi", "mkmulti"):
-        n = num if k == "multi" else len(pts[0])
-        allinst = [inst for smp in pts for inst in smp[:n]]     # see ConfMaps.v: broadcast over samples
-        for smp in pts:
-            per_sample.append([[inst[j] for inst in allinst] for j in range(c["n_nodes"])])
     else:
-        allinst = [inst for smp in pts for inst in smp[:num]]
+        nch = 1 if k in ("cent", "dp_cent") else c["n_nodes"]
+        everyone = [inst for smp in pts for inst in contributing_rows(c, smp)]
         for smp in pts:
-            per_sample.append([[inst[0] for inst in allinst]])
+            rows = everyone if all_samples else contributing_rows(c, smp)
+            per_sample.append([[inst[j] for inst in rows] for j in range(nch)])
     return per_sample
 
 
+def others_contribute(c, si, ci):
+    """Selector of finding F60 (Coq: Entry.others_contribute): an animal of ANOTHER sample has node ci
+    labelled among the contributing rows."""
+    if c["kind"] not in MULTI_KINDS:
+        return False
+    return any(visible(inst[ci]) for sj, smp in enumerate(c["pts"]) if sj != si
+               for inst in contributing_rows(c, smp))
+
+
 def sample_grid(c):
-    """(xs, ys, effective sigma, grid given by the stride?)"""
+    """(xs, ys, effective sigma)"""
     if c["kind"] in MK_KINDS:
         return [float(v) for v in c["xv"]], [float(v) for v in c["yv"]], float(c["sigma"])
     H, W, s = c["H"], c["W"], c["s"]
@@ -353,46 +384,74 @@ def sample_grid(c):
             float(c["sigma"]) * s)
 
 
+def channel_check(ch, kps, xs, ys, sg, where, nearest=True):
+    """One (h, w) channel against the statement for the keypoints `kps`. None or a reason."""
+    h, w = len(ys), len(xs)
+    vis = [p for p in kps if visible(p)]
+    best_cell, best_val, best_d = None, -1.0, None
+    for i in range(h):
+        for j in range(w):
+            v = ch[i][j]
+            if not math.isfinite(v):
+                return f"non-finite value at {where + (i, j)}"
+            if v < 0 or v > 1 + 1e-6:
+                return f"value {v} outside [0,1] at {where + (i, j)}"
+            exp = 0.0
+            for p in vis:
+                d2 = (xs[j] - float(p[0])) ** 2 + (ys[i] - float(p[1])) ** 2
+                exp = max(exp, math.exp(-d2 / (2 * sg ** 2)))
+            if abs(v - exp) > ATOL + RTOL * exp:
+                return (f"value {v} != max over the sample's animals of exp(-d^2/2(sigma*stride)^2) = {exp} "
+                        f"at sample {where[0]} channel {where[1]} cell {(i, j)}")
+            if len(vis) == 1:
+                d2 = (xs[j] - float(vis[0][0])) ** 2 + (ys[i] - float(vis[0][1])) ** 2
+                if v > best_val:
+                    best_val, best_cell, best_d = v, (i, j), d2
+    if nearest and len(vis) == 1 and best_val > 1e-30:
+        dmin = min((xs[j] - float(vis[0][0])) ** 2 + (ys[i] - float(vis[0][1])) ** 2
+                   for i in range(h) for j in range(w))
+        # largest at the nearest cell (ties between equidistant cells allowed)
+        if best_d > dmin + 1e-3 * sg ** 2:
+            return f"sample {where[0]} channel {where[1]}: maximum at {best_cell} is not the nearest grid cell"
+    return None
+
+
 def oracle(c, out):
-    """Returns None or a reason string."""
+    """The property on the implementation's output.  Returns a list of failures
+    {"reason", "sample", "channel", "known"}: `known` = the failing channel falls under the selector of
+    finding F60 and is exactly the broadcast (maximum over the animals of all samples)."""
     xs, ys, sg = sample_grid(c)
     h, w = len(ys), len(xs)
     contrib = contributors(c)
     shape = tuple(out.shape)
     want = (len(c["pts"]), len(contrib[0]), h, w)
     if shape != want:
-        return f"shape {shape} != {want}"
+        return [{"reason": f"shape {shape} != {want}", "sample": None, "channel": None, "known": False}]
     if not out.dtype.is_floating_point:
-        return f"dtype {out.dtype} is not a floating-point type"
+        return [{"reason": f"dtype {out.dtype} is not a floating-point type", "sample": None, "channel": None,
+                 "known": False}]
     o = out.tolist()
+    fails = []
+    bcast = None
     for si, chans in enumerate(contrib):
         for ci, kps in enumerate(chans):
-            vis = [p for p in kps if visible(p)]
-            best_cell, best_val, best_d = None, -1.0, None
-            for i in range(h):
-                for j in range(w):
-                    v = o[si][ci][i][j]
-                    if not math.isfinite(v):
-                        return f"non-finite value at {(si, ci, i, j)}"
-                    if v < 0 or v > 1 + 1e-6:
-                        return f"value {v} outside [0,1] at {(si, ci, i, j)}"
-                    exp = 0.0
-                    for p in vis:
-                        d2 = (xs[j] - float(p[0])) ** 2 + (ys[i] - float(p[1])) ** 2
-                        exp = max(exp, math.exp(-d2 / (2 * sg ** 2)))
-                    if abs(v - exp) > ATOL + RTOL * exp:
-                        return f"value {v} != exp(-d^2/2(sigma*stride)^2) = {exp} at sample {si} channel {ci} cell {(i, j)}"
-                    if len(vis) == 1:
-                        d2 = (xs[j] - float(vis[0][0])) ** 2 + (ys[i] - float(vis[0][1])) ** 2
-                        if v > best_val:
-                            best_val, best_cell, best_d = v, (i, j), d2
-            if len(vis) == 1 and best_val > 1e-30:
-                dmin = min((xs[j] - float(vis[0][0])) ** 2 + (ys[i] - float(vis[0][1])) ** 2
-                           for i in range(h) for j in range(w))
-                # largest at the nearest cell (ties between equidistant cells allowed)
-                if best_d > dmin + 1e-3 * sg ** 2:
-                    return f"channel {ci} maximum at {best_cell} is not the nearest grid cell"
-    return None
+            bad = channel_check(o[si][ci], kps, xs, ys, sg, (si, ci))
+            if not bad:
+                continue
+            known = False
+            if others_contribute(c, si, ci):
+                bcast = bcast or contributors(c, all_samples=True)
+                known = channel_check(o[si][ci], bcast[si][ci], xs, ys, sg, (si, ci), nearest=False) is None
+            fails.append({"reason": bad, "sample": si, "channel": ci, "known": known})
+    return fails
+
+
+def verdict(fails):
+    """(hard reason | None, known reason | None)"""
+    hard = [f for f in fails if not f["known"]]
+    soft = [f for f in fails if f["known"]]
+    return (hard[0]["reason"] if hard else None,
+            f"{soft[0]['reason']} [{len(soft)} channel(s) under selector {SELECTOR}]" if soft else None)
 
 
 def compare(c, model, out):
@@ -474,19 +533,45 @@ def grid_tie(run, torch, thorough):
     run.coverage["grid_cases"] = len(triples)
 
 
+def detect_variant(mods):
+    """Which make_multi_confmaps does the code implement?  Replays the witness of F60 (two samples, the
+    second without any keypoint): "repaired" if the second sample's map is all zero, "pinned" if it is a
+    copy of the first sample's (the broadcast), None if neither (or the call fails)."""
+    try:
+        c = case_from_json(json.load(open(F60_WITNESS))["case"])
+        out = run_impl(c, mods).tolist()
+        s0 = [v for ch in out[0] for row in ch for v in row]
+        s1 = [v for ch in out[1] for row in ch for v in row]
+    except Exception:
+        return None
+    if max(s0) > 0.5 and all(v == 0 for v in s1):
+        return "repaired"
+    if max(s0) > 0.5 and all(abs(a - b) <= 1e-6 for a, b in zip(s0, s1)):
+        return "pinned"
+    return None
+
+
 def check(run: core.Run) -> int:
     run.build_and_prove(PROP_FILES)
-    static_tie(run)
+    static_variant = static_tie(run)
     core.impl_env_setup()
     import torch
     from sleap_nn.data import confidence_maps as cm
     mods = (torch, cm)
+    variant = detect_variant(mods)
+    run.obligation("variant of make_multi_confmaps (finding F60): the witness replay on the code and the layout "
+                   "statement read by the translator agree (pinned = broadcast over samples / repaired = per sample)",
+                   variant is not None and (static_variant is None or variant == static_variant),
+                   f"dynamic {variant}, static {static_variant}")
+    fx = "true" if variant == "repaired" else "false"
+    run.coverage["make_multi_confmaps_variant"] = variant
     thorough = run.tier == "thorough"
     n = 3000 if thorough else 420
     cases = []
     corpus = sorted((core.CORPUS / "C01").glob("*.json")) if (core.CORPUS / "C01").exists() else []
     for f in corpus:
-        cases.append(case_from_json(json.load(open(f))))
+        j = json.load(open(f))
+        cases.append(case_from_json(j.get("case", j)))
     n_stream = 200 if thorough else 30
     for stream in ("empty", "nanfirst"):
         k = 0
@@ -500,7 +585,7 @@ def check(run: core.Run) -> int:
         c = gen_case(run.rng, thorough)
         if admissible(c):
             cases.append(c)
-    model = core.coq_eval_sharded(PREAMBLE, [term(c) for c in cases], "run2", RENDER, shard=60, jobs=12)
+    model = core.coq_eval_sharded(PREAMBLE, [f"({fx}, {term(c)})" for c in cases], "run3", RENDER, shard=60, jobs=12)
     disagree = 0
     dist = {}
     for c, m in zip(cases, model):
@@ -525,13 +610,20 @@ def check(run: core.Run) -> int:
         if err:
             run.violation("failing-input", {"case": case_json(c), "impl_error": err})
             continue
-        bad = oracle(c, out)
+        bad, known = verdict(oracle(c, out))
         diff = compare(c, m, out)
         if diff:
             disagree += 1
+        if len(c["pts"]) > 1 and c["kind"] in MULTI_KINDS and any(
+                others_contribute(c, si, ci) for si in range(len(c["pts"]))
+                for ci in range(1 if c["kind"] in ("cent", "dp_cent") else c["n_nodes"])):
+            dist["under_selector_F60"] = dist.get("under_selector_F60", 0) + 1
         if bad:
             run.violation("failing-input", {"case": case_json(c), "oracle": bad, "correspondence": diff})
-        elif diff:
+        elif known:
+            run.violation("failing-input", {"case": case_json(c), "oracle": known, "correspondence": diff},
+                          selector=SELECTOR)
+        if diff and not (bad or known):
             run.proof_broken.append(f"correspondence C01 model vs implementation: {diff}; case {json.dumps(case_json(c))[:600]}")
     run.obligation("correspondence: Entry.run2 (Coq, vm_compute) == confidence_maps.py (/repo) on every case",
                    disagree == 0, f"{disagree} disagreements")
@@ -546,12 +638,17 @@ def check(run: core.Run) -> int:
         run.sample(case_json(c))
     run.trusted += ["torch.exp / nan_to_num / maximum / arange float32 kernels are modelled (exact rational argument of exp), "
                     "compared within float32 tolerance",
-                    "with n_samples > 1 make_multi_confmaps broadcasts every instance over all samples; modelled as coded "
-                    "(and proved of the loop: c01_ir_make_multi_confmaps)",
+                    "finding F60: with n_samples > 1 the pinned make_multi_confmaps broadcasts every instance over all "
+                    "samples; both variants are modelled (Entry.mmc), the oracle is per sample, the variant is detected "
+                    "by replaying corpus/C01/F60_cross_sample.json and cross-checked with the translator",
                     "translator/c01_confmaps2coq.py (stdlib ast, fail-closed): the reading of torch.arange / reshape / exp / "
                     "nan_to_num / zeros / maximum / view / unsqueeze / basic slicing as the constructors of C01/TExpr.v; "
                     "validated by the dynamic correspondence on every run"]
-    run.assumptions += ["coordinates are finite or NaN (no +-inf), sigma > 0, output_stride >= 1, num_instances >= 0"]
+    run.assumptions += ["coordinates are finite or NaN (no +-inf), sigma > 0, output_stride >= 1, num_instances >= 0",
+                        "exact-arithmetic idealisation: the theorems hold for 2*(sigma*stride)^2 and d^2 inside the float32 "
+                        "normal range (generated: sigma in [1/8, 64], |coordinate| <= 5000); outside it the code's float32 "
+                        "arithmetic produces 0/0 or inf/inf and nan_to_num turns the NaN into 0 (e.g. sigma = 1e-30)",
+                        "rank-4 input of generate_confmaps is contiguous (.view raises on a permuted view)"]
     return run.finish()
 
 
@@ -564,10 +661,11 @@ def replay(run: core.Run, path: str) -> int:
         print(json.dumps({"oracle": rep.get("oracle"), "note": "not a keypoint case", "replay": rep}, default=str)[:2000])
         return 1
     c = case_from_json(rep["case"])
+    known = None
     try:
         out = run_impl(c, (torch, cm))
-        bad = oracle(c, out)
+        bad, known = verdict(oracle(c, out))
     except Exception as e:
         bad = f"{type(e).__name__}: {e}"
-    print(json.dumps({"oracle": bad}))
-    return 1 if bad else 0
+    print(json.dumps({"oracle": bad, "known_finding_F60": known}))
+    return 1 if (bad or known) else 0
